@@ -22,7 +22,9 @@ use tu_verif::run::Run;
 
 const ALPHA: [&str; 5] = ["a", "b", "A", "-", " "];
 const CLUSTER_ALPHA: [&str; 3] = ["a", "x\u{301}", " "];
-const WIDE_ALPHA: [&str; 5] = ["ä", "Ä", "\u{fb01}", "1", " "];
+/// (U+00B4, a spacing accent: NFKC rewrites it to a space plus a combining mark -- the order of
+/// cleaning and normalising matters for it)
+const WIDE_ALPHA: [&str; 6] = ["ä", "Ä", "\u{fb01}", "1", " ", "\u{b4}"];
 /// closest-entry phase: dictionaries are all sets of up to 3 of these words (1 to 4 bytes per
 /// character, different lengths in bytes and in characters) with frequencies 1 or 2
 const CLOSEST_WORDS: [&str; 10] = ["a", "b", "ab", "cd", "ä", "äb", "日", "日本", "日本c", "\u{10400}\u{10400}"];
@@ -617,7 +619,7 @@ fn main() {
     }
     // one line over a two-byte letter in both cases, a ligature that NFKC rewrites to two letters,
     // and a digit (neither letter nor punctuation: n-grams around it are not counted)
-    for l in strings(&WIDE_ALPHA, run.pick(2, 3)) {
+    for l in strings(&WIDE_ALPHA, run.pick(3, 3)) {
         if l.chars().any(|c| !c.is_ascii() || c.is_ascii_digit()) {
             sets.push(vec![vec![l]]);
         }
@@ -707,7 +709,7 @@ fn main() {
         "file_sets_rule".into(),
         json!(format!(
             "1 line of at most {one_max} symbols; 1 line of at most 3 symbols over {CLUSTER_ALPHA:?} with the cluster; 1 line of at most {} symbols over {WIDE_ALPHA:?} with a non-ASCII symbol or the digit; 2 lines of at most {two_max} symbols each; 3 lines of at most 1 symbol each over {three_alpha:?}; lines cut into consecutive non-empty files in every way",
-            run.pick(2, 3)
+            run.pick(3, 3)
         )),
     );
     run.bounds.insert("max_size".into(), json!(MAX_SIZES.iter().map(|o| opt_json(*o)).collect::<Vec<_>>()));
